@@ -9,7 +9,7 @@
 From Coq Require Import List ZArith.
 Import ListNotations.
 From Goag Require Import Base.Str Model.Params Model.Json Spec.JsonSpec
-     Proofs.JsonEncProofs Proofs.JsonRtProofs Proofs.JsonStrictProofs Proofs.JsonCompleteProofs Proofs.JsonStableProofs Proofs.JsonKeepProofs Model.OneOf Proofs.OneOfProofs.
+     Proofs.JsonEncProofs Proofs.JsonRtProofs Proofs.JsonStrictProofs Proofs.JsonCompleteProofs Proofs.JsonStableProofs Proofs.JsonKeepProofs Proofs.JsonKeepIdem Model.OneOf Proofs.OneOfProofs.
 
 (* a document that lacks a required property is rejected *)
 Theorem C08_missing_required : forall parse_num parse_time ms addl members k sf v,
@@ -104,3 +104,24 @@ Theorem C08_lossless : forall fmt_float fmt_time parse_num parse_time s j,
             enc fmt_float fmt_time s v = Ok (keep fmt_float fmt_time parse_num parse_time s j [] false).
 Proof. exact lossless. Qed.
 Print Assumptions C08_lossless.
+
+(* [keep] is a normal form: the kept part of a valid document is itself valid,
+   decodes to the same value, and keeping it again changes nothing — "an
+   equivalent JSON value" is made precise as: same normal form *)
+Theorem C08_kept_part_is_equivalent : forall fmt_float fmt_time parse_num parse_time,
+  (forall b r, parse_num b (fmt_float b r) = Some r) ->
+  (forall r, parse_time (fmt_time r) = Some r) ->
+  forall s j, wf_sch s -> dom_sch s -> validates parse_num parse_time s j = true ->
+    validates parse_num parse_time s (keep fmt_float fmt_time parse_num parse_time s j [] false) = true /\
+    dec parse_num parse_time s (keep fmt_float fmt_time parse_num parse_time s j [] false) = dec parse_num parse_time s j.
+Proof. exact keep_valid_and_same_value. Qed.
+Print Assumptions C08_kept_part_is_equivalent.
+
+Theorem C08_keep_idempotent : forall fmt_float fmt_time parse_num parse_time,
+  (forall b r, parse_num b (fmt_float b r) = Some r) ->
+  (forall r, parse_time (fmt_time r) = Some r) ->
+  forall s j, wf_sch s -> dom_sch s -> validates parse_num parse_time s j = true ->
+    keep fmt_float fmt_time parse_num parse_time s (keep fmt_float fmt_time parse_num parse_time s j [] false) [] false
+    = keep fmt_float fmt_time parse_num parse_time s j [] false.
+Proof. exact keep_idempotent. Qed.
+Print Assumptions C08_keep_idempotent.
